@@ -33,7 +33,9 @@ SPEC = {
 }
 
 KINDS = ['date', 'description', 'amount', 'location', 'ca', 'cb', 'skip']
-DATE_FORMATS = [None, '%d  %b  %y', '%d\t%b %y', '%d %b  %y', '%b %d,  %Y', '%b %d, %Y', '%A, %d %B %Y', '%A, %B %d, %Y', '%a, %d %b, %Y, %H:%M', '%d,%m,%Y', '%m/%d/%Y', '%Y-%m-%d', '%d.%m.%Y', '%d %b %y', '%m/%d/%y', '%Y%m%d', '%d-%b-%Y %H:%M']
+DATE_FORMATS = [None, '%d  %b  %y', '%d\t%b %y', '%d %b  %y', '%b %d,  %Y', '%b %d, %Y', '%A, %d %B %Y', '%A, %B %d, %Y', '%a, %d %b, %Y, %H:%M', '%d,%m,%Y', '%m/%d/%Y', '%Y-%m-%d', '%d.%m.%Y', '%d %b %y', '%m/%d/%y', '%Y%m%d', '%d-%b-%Y %H:%M',
+                # time zones (bank API exports): numeric offset and zone name
+                '%Y-%m-%dT%H:%M:%S%z', '%d %b %Y %H:%M %Z', '%Y-%m-%d %H:%M:%S.%f%z']
 CUSTOM_NAMES = [('type', 'merchant'), ('Cardholder', 'memo'), ('txn_type', 'Payee2'), ('a', 'b'), ('_memo', '_type'), ('_id', 'ref_'), ('__', 'x_'), ('Stra\u00dfe', 'Gr\u00f6\u00dfe'), ('\u017fee', 'o\ufb01'),
                 # column names that start with a digit (pay-slip and tax exports: 401k, 1099_box, 2nd_ref)
                 ('401k', '2nd_ref'), ('1099_box', 'ref2'), ('7', 'x9')]
@@ -91,8 +93,12 @@ def render(seq, rnd, names):
             pre = rnd.choice(['', '', '-', '+'])
             meta['negate'], meta['abs'] = pre == '-', pre == '+'
             t = '{%s%s}' % (pre, rnd.choice(['amount', 'Amount', 'AMOUNT']))
+            if rnd.random() < .06:
+                t = t[:-1] + rnd.choice([':.2f', ':EUR', ':>10']) + '}'      # (text after a colon in another token than the date is not a date format)
         elif k == 'description':
             t = '{%s}' % rnd.choice(['description', 'Description', 'DESCRIPTION'])
+            if rnd.random() < .06:
+                t = t[:-1] + rnd.choice([':40', ':s', ':<30']) + '}'
         elif k == 'location':
             t = '{%s}' % rnd.choice(['location', 'Location'])
         else:
